@@ -8,7 +8,11 @@
 //! certificate was issued by which CA is known *by construction* (the harness
 //! creates every CA, leaf and self-signed certificate itself with rcgen).
 //!
-//! Six passes:
+//! The operating-system trust store is a controlled dimension: SSL_CERT_FILE (honoured by `rustls-native-certs` on
+//! every load) is pointed at a bundle holding one harness-made CA, "os-ca", for the whole run (see `OsStore`), so
+//! "system roots" has a known content and certificates "issued by an OS-trusted CA" exist.
+//!
+//! Seven passes:
 //!  1. `matrix`  – subject client x subject server, the full product of the dimensions;
 //!  2. `probe`   – a harness-owned rustls client (TLS 1.2 and 1.3, verification off,
 //!     recording whether the server sent a CertificateRequest) against every subject
@@ -24,6 +28,10 @@
 //!     `rustls::ClientConfig`), through the library calls (in memory, the server side accepting the way `server_main`
 //!     does) and through SIGUSR1 on a running `server_main`: a handshake after a reload must be shown the new
 //!     certificate and is admitted iff the client presents a certificate under the new client CA, resumable session or not.
+//!  7. `os-trust-store` – the OS store is consulted iff no CA file is configured: a CA file that holds no certificate
+//!     {empty, key only, DER, truncated PEM} means "nobody is trusted" (client: no server is reached; server: start-up /
+//!     reload refused or every client rejected), in particular NOT "whoever the OS store trusts"; controls: with no CA
+//!     file a server certificate under os-ca is accepted (else MACHINERY: the variable does not feed the built-in roots).
 
 use crate::Args;
 use crate::report::Report;
@@ -70,6 +78,8 @@ struct Ident {
 
 struct Ca {
     path: String,
+    cert_pem: String,
+    cert_der: Vec<u8>,
     issuer: Issuer<'static, KeyPair>,
 }
 
@@ -90,14 +100,55 @@ struct Pki {
     ca_trusted: Ca,
     ca_other: Ca,
     ca_client: Ca,
+    /// the only CA of this key algorithm in the "operating-system trust store" (SSL_CERT_FILE); never handed to the subject
+    /// as a file except in the controls that say so
+    ca_os: Ca,
     /// (kind, san) -> identity; kind "trusted-ca-2" is a second, distinct trusted leaf (reload pass)
     servers: Vec<((String, String), Ident)>,
     /// kind -> identity
     clients: Vec<(String, Ident)>,
 }
 
-fn write(path: &str, content: &str) {
+fn write(path: &str, content: impl AsRef<[u8]>) {
     std::fs::write(path, content).expect("write pem");
+}
+
+// ---------------------------------------------------------------------------------------
+// The operating-system trust store is a controlled dimension: `rustls-native-certs` (0.8.4, the version the
+// subject is built with) reads SSL_CERT_FILE and SSL_CERT_DIR on EVERY `load_native_certs()` call and, when either
+// is set, loads from them INSTEAD of the locations probed on the machine. The whole process is dedicated to this
+// check, so the variable is set once, before any TLS configuration is built: "system roots" (no `--tls-ca`) then
+// means exactly {os-ca of every key algorithm of this run}, whatever the machine's real store holds.
+// ---------------------------------------------------------------------------------------
+
+struct OsStore {
+    _dir: tempfile::TempDir,
+    path: String,
+}
+
+impl OsStore {
+    /// Creates the (still empty) bundle file and points the process's "OS trust store" at it.
+    fn install() -> Result<Self, String> {
+        let dir = tempfile::Builder::new().prefix("verif-c17-osstore-").tempdir().map_err(|e| format!("os trust store: tempdir: {e}"))?;
+        let path = format!("{}/os-trust-store.pem", dir.path().to_str().ok_or("os trust store: tempdir is not UTF-8")?);
+        std::fs::write(&path, "").map_err(|e| format!("os trust store: cannot create {path}: {e}"))?;
+        // SAFETY: called at the very start of the driver; the only other thread alive is vcommon's watchdog, which
+        // never touches the environment; the worker threads are spawned later.
+        unsafe {
+            std::env::set_var("SSL_CERT_FILE", &path);
+            std::env::remove_var("SSL_CERT_DIR");
+        }
+        if std::env::var("SSL_CERT_FILE").ok().as_deref() != Some(path.as_str()) || std::env::var_os("SSL_CERT_DIR").is_some() {
+            return Err("os trust store: SSL_CERT_FILE / SSL_CERT_DIR could not be set up".into());
+        }
+        Ok(Self { _dir: dir, path })
+    }
+    /// Adds one CA certificate (PEM) to the store; done while the key material is generated, before any handshake.
+    fn add(&self, pem: &str) {
+        use std::io::Write;
+        let mut f = std::fs::OpenOptions::new().append(true).open(&self.path).expect("open os trust store");
+        f.write_all(pem.as_bytes()).expect("append to os trust store");
+    }
 }
 
 fn make_ca(dir: &str, name: &str, alg: &str) -> Ca {
@@ -109,8 +160,9 @@ fn make_ca(dir: &str, name: &str, alg: &str) -> Ca {
     let key = gen_key(alg);
     let cert = p.self_signed(&key).expect("ca cert");
     let path = format!("{dir}/{name}.pem");
-    write(&path, &cert.pem());
-    Ca { path, issuer: Issuer::new(p, key) }
+    let cert_pem = cert.pem();
+    write(&path, &cert_pem);
+    Ca { path, cert_pem, cert_der: cert.der().to_vec(), issuer: Issuer::new(p, key) }
 }
 
 fn leaf_params(san: &str, cn: &str, eku: ExtendedKeyUsagePurpose, expired: bool) -> CertificateParams {
@@ -144,12 +196,14 @@ fn make_ident(dir: &str, file: &str, alg: &str, params: &CertificateParams, issu
 }
 
 impl Pki {
-    fn new(alg: &str) -> Self {
+    fn new(alg: &str, os_store: &OsStore) -> Self {
         let dir = tempfile::Builder::new().prefix("verif-c17-").tempdir().expect("tempdir");
         let d = dir.path().to_str().expect("utf8 tempdir").to_string();
         let ca_trusted = make_ca(&d, "ca-trusted", alg);
         let ca_other = make_ca(&d, "ca-other", alg);
         let ca_client = make_ca(&d, "ca-client", alg);
+        let ca_os = make_ca(&d, "ca-os", alg);
+        os_store.add(&ca_os.cert_pem);
         let mut servers = Vec::new();
         for san in SANS {
             for kind in ["trusted-ca", "trusted-ca-2", "other-ca", "self-signed", "trusted-ca-expired"] {
@@ -163,17 +217,21 @@ impl Pki {
                 servers.push(((kind.to_string(), san.to_string()), id));
             }
         }
+        // a server certificate under the OS-trusted CA (os-trust-store pass only)
+        let p = leaf_params("localhost", "srv os-ca localhost", ExtendedKeyUsagePurpose::ServerAuth, false);
+        servers.push((("os-ca".to_string(), "localhost".to_string()), make_ident(&d, "srv-os-ca-localhost", alg, &p, Some(&ca_os))));
         let mut clients = Vec::new();
-        for kind in ["client-ca", "other-ca", "self-signed"] {
+        for kind in ["client-ca", "other-ca", "self-signed", "os-ca"] {
             let p = leaf_params("", &format!("client {kind}"), ExtendedKeyUsagePurpose::ClientAuth, false);
             let issuer = match kind {
                 "client-ca" => Some(&ca_client),
                 "other-ca" => Some(&ca_other),
+                "os-ca" => Some(&ca_os),
                 _ => None,
             };
             clients.push((kind.to_string(), make_ident(&d, &format!("cli-{kind}"), alg, &p, issuer)));
         }
-        Self { _dir: dir, dir_path: d, ca_trusted, ca_other, ca_client, servers, clients }
+        Self { _dir: dir, dir_path: d, ca_trusted, ca_other, ca_client, ca_os, servers, clients }
     }
     fn server(&self, kind: &str, san: &str) -> &Ident {
         &self.servers.iter().find(|((k, s), _)| k == kind && s == san).unwrap_or_else(|| panic!("no server identity {kind}/{san}")).1
@@ -185,6 +243,7 @@ impl Pki {
         match roots {
             "trusted-ca" => Some(&self.ca_trusted.path),
             "other-ca" => Some(&self.ca_other.path),
+            "os-ca" => Some(&self.ca_os.path),
             "system" => None,
             other => panic!("unknown roots {other}"),
         }
@@ -292,10 +351,37 @@ async fn subject_handshake(
     roots: Option<&str>,
     skip: bool,
 ) -> (Obs, Option<(ClientStream, ServerStream)>) {
+    subject_handshake_via("tls_connect", cfg, req_name, client_id, roots, skip).await
+}
+
+/// The two public ways of getting the subject's client side: `tls_connect` (what the client loop calls), or
+/// `make_client_config` with the connection made by the harness from the configuration it returns.
+const CLIENT_VIA: [&str; 2] = ["tls_connect", "make_client_config"];
+
+async fn subject_handshake_via(
+    via: &str,
+    cfg: Arc<ServerConfig>,
+    req_name: &str,
+    client_id: Option<&Ident>,
+    roots: Option<&str>,
+    skip: bool,
+) -> (Obs, Option<(ClientStream, ServerStream)>) {
     let (cio, sio) = tokio::io::duplex(1 << 16);
+    let (cert, key) = (client_id.map(|c| c.cert_path.as_str()), client_id.map(|c| c.key_path.as_str()));
     let client = async {
-        match tls::tls_connect(cio, req_name, client_id.map(|c| c.cert_path.as_str()), client_id.map(|c| c.key_path.as_str()), roots, skip).await {
-            Err(e) => (Err(e.to_string()), None, false),
+        let connected: Result<ClientStream, String> = match via {
+            "tls_connect" => tls::tls_connect(cio, req_name, cert, key, roots, skip).await.map_err(|e| e.to_string()),
+            "make_client_config" => match tls::make_client_config(cert, key, roots, skip, Some(&["http/1.1"])).await {
+                Err(e) => Err(e.to_string()),
+                Ok(ccfg) => match ServerName::try_from(req_name.to_string()) {
+                    Err(e) => Err(e.to_string()),
+                    Ok(name) => tokio_rustls::TlsConnector::from(Arc::new(ccfg)).connect(name, cio).await.map(tokio_rustls::TlsStream::Client).map_err(|e| e.to_string()),
+                },
+            },
+            other => panic!("unknown client entry point {other}"),
+        };
+        match connected {
+            Err(e) => (Err(e), None, false),
             Ok(mut s) => {
                 let saw = s.get_ref().1.peer_certificates().and_then(|c| c.first().map(|x| x.to_vec()));
                 let ok = echo_from_client(&mut s).await;
@@ -460,10 +546,12 @@ fn server_cert_defect(server_cert: &str, san: &str, req_name: &str, roots: &str)
     let issuer = match server_cert {
         "trusted-ca" | "trusted-ca-2" | "trusted-ca-expired" => "trusted-ca",
         "other-ca" => "other-ca",
+        "os-ca" => "os-ca",
         _ => "self",
     };
-    if issuer != roots {
-        // includes "system": none of the freshly generated CAs is in the system store
+    // "system" = no file given = the OS trust store, which holds os-ca and nothing else (SSL_CERT_FILE, see `OsStore`)
+    let given = if roots == "system" { "os-ca" } else { roots };
+    if issuer != given {
         return Some("untrusted-chain");
     }
     if server_cert == "trusted-ca-expired" {
@@ -485,6 +573,8 @@ fn client_cert_defect(client_cert: &str, server_client_ca: bool) -> Option<&'sta
         "none" => Some("no-client-cert"),
         "other-ca" => Some("client-cert-other-ca"),
         "self-signed" => Some("client-cert-self-signed"),
+        // issued by the CA of the OS trust store, which is not the configured client CA
+        "os-ca" => Some("client-cert-os-trusted-ca"),
         other => panic!("unknown client cert kind {other}"),
     }
 }
@@ -950,66 +1040,82 @@ fn bad_ca_domain(algs: &[&str]) -> Vec<BadCaCase> {
     v
 }
 
+/// What a CA file "without certificates" holds. `key_pem` is some private key of the run, `ca` the CA the file would have
+/// held had it been written properly.
+fn unusable_bundle(kind: &str, key_pem: &str, ca: &Ca) -> Vec<u8> {
+    match kind {
+        "empty" => Vec::new(),
+        "key-only" => key_pem.as_bytes().to_vec(),
+        "not-pem" => b"this is not a certificate\n".to_vec(),
+        // the right certificate in the wrong encoding: no PEM block in it
+        "der" => ca.cert_der.clone(),
+        "truncated-pem" => b"-----BEGIN CERTIFICATE-----\nMIIB".to_vec(),
+        other => panic!("unknown bad CA kind {other}"),
+    }
+}
+
+/// Brings a server configuration to life whose client-CA file is the unusable one at `bad`: at start-up through `ctor`,
+/// or by reloading (method `via`) a server that was started with the proper client CA. `None`: start-up was refused
+/// (fine, fact `start.refused`) or the set-up itself failed (violation raised). After a refused reload the previous
+/// configuration is the live one and is returned.
+#[allow(clippy::too_many_arguments)]
+async fn bad_ca_live_config(pki: &Pki, bad: &str, via: &str, ctor: &str, ctx: &str, replay: &Value, sink: &Sink<'_>, facts: &mut Facts, counters: &Counters) -> Option<Arc<ServerConfig>> {
+    let id = pki.server("trusted-ca", "localhost");
+    if via == "start" {
+        return match build_server_config(ctor, id, Some(bad)).await {
+            Err(_) => {
+                facts.push(("start.refused".into(), json!(true)));
+                counters.evals.fetch_add(1, Ordering::Relaxed);
+                None // refusing to start is fine
+            }
+            Ok((_, cfg)) => Some(cfg),
+        };
+    }
+    let idb = pki.server("trusted-ca-2", "localhost");
+    let live_cert = format!("{bad}.live.cert.pem");
+    let live_key = format!("{bad}.live.key.pem");
+    write(&live_cert, &id.cert_pem);
+    write(&live_key, &id.key_pem);
+    let ident = match tls::make_tls_identity(&live_cert, &live_key, Some(pki.ca_client.path.as_str())).await {
+        Ok(i) => i,
+        Err(e) => {
+            sink.viol("server.config-rejected.make_tls_identity".into(), format!("{e}; {ctx}"), replay.clone());
+            return None;
+        }
+    };
+    let r = match via {
+        "reload.same-paths-overwritten" => {
+            write(&live_cert, &idb.cert_pem);
+            write(&live_key, &idb.key_pem);
+            tls::reload_tls_identity(&ident, &live_cert, &live_key, Some(bad)).await
+        }
+        "reload.other-paths" => tls::reload_tls_identity(&ident, &idb.cert_path, &idb.key_path, Some(bad)).await,
+        "reload.from-pem" => tls::reload_tls_identity_from_pem(&ident, idb.cert_pem.clone(), idb.key_pem.clone(), Some(bad)).await,
+        other => panic!("unknown via {other}"),
+    };
+    facts.push(("reload.ok".into(), json!(r.is_ok())));
+    let cfg = ident.load_full();
+    if r.is_err() {
+        // the old configuration stays: a client under the (old, valid) client CA is still admitted
+        let o = probe_handshake(cfg.clone(), true, pki.client("client-ca")).await;
+        counters.evals.fetch_add(1, Ordering::Relaxed);
+        facts.push(("after-refused-reload.client-ca.accepted".into(), json!(o.success())));
+        if !o.success() {
+            sink.viol("badca.refused-reload-disturbed-old-config".into(), format!("the reload was refused but a client holding a certificate under the still-configured client CA is no longer admitted (client: {:?}, server: {:?}); {ctx}", o.client_err, o.server_err), replay.clone());
+        }
+    }
+    Some(cfg)
+}
+
 /// Returns the facts observed (for determinism comparison in replay).
 async fn run_bad_ca_case(pki: &Pki, c: &BadCaCase, sink: &Sink<'_>, counters: &Counters) -> Result<Facts, String> {
     catch(async {
         let mut facts: Facts = Vec::new();
         let replay = c.to_json();
-        let id = pki.server("trusted-ca", "localhost");
         let bad = format!("{}/badca-{}-{}-{}.pem", pki.dir_path, c.kind, c.via, c.ctor);
-        let content = match c.kind.as_str() {
-            "empty" => String::new(),
-            "key-only" => id.key_pem.clone(),
-            "not-pem" => "this is not a certificate\n".to_string(),
-            "truncated-pem" => "-----BEGIN CERTIFICATE-----\nMIIB".to_string(),
-            other => panic!("unknown bad CA kind {other}"),
-        };
-        write(&bad, &content);
-        let cfg: Arc<ServerConfig> = if c.via == "start" {
-            match build_server_config(&c.ctor, id, Some(&bad)).await {
-                Err(e) => {
-                    facts.push(("start.refused".into(), json!(true)));
-                    let _ = e;
-                    counters.evals.fetch_add(1, Ordering::Relaxed);
-                    return facts; // refusing to start is fine
-                }
-                Ok((_, cfg)) => cfg,
-            }
-        } else {
-            let idb = pki.server("trusted-ca-2", "localhost");
-            let live_cert = format!("{bad}.live.cert.pem");
-            let live_key = format!("{bad}.live.key.pem");
-            write(&live_cert, &id.cert_pem);
-            write(&live_key, &id.key_pem);
-            let ident = match tls::make_tls_identity(&live_cert, &live_key, Some(pki.ca_client.path.as_str())).await {
-                Ok(i) => i,
-                Err(e) => {
-                    sink.viol("server.config-rejected.make_tls_identity".into(), format!("{e}; {c:?}"), replay.clone());
-                    return facts;
-                }
-            };
-            let r = match c.via.as_str() {
-                "reload.same-paths-overwritten" => {
-                    write(&live_cert, &idb.cert_pem);
-                    write(&live_key, &idb.key_pem);
-                    tls::reload_tls_identity(&ident, &live_cert, &live_key, Some(&bad)).await
-                }
-                "reload.other-paths" => tls::reload_tls_identity(&ident, &idb.cert_path, &idb.key_path, Some(&bad)).await,
-                "reload.from-pem" => tls::reload_tls_identity_from_pem(&ident, idb.cert_pem.clone(), idb.key_pem.clone(), Some(&bad)).await,
-                other => panic!("unknown via {other}"),
-            };
-            facts.push(("reload.ok".into(), json!(r.is_ok())));
-            let cfg = ident.load_full();
-            if r.is_err() {
-                // the old configuration stays: a client under the (old, valid) client CA is still admitted
-                let o = probe_handshake(cfg.clone(), true, pki.client("client-ca")).await;
-                counters.evals.fetch_add(1, Ordering::Relaxed);
-                facts.push(("after-refused-reload.client-ca.accepted".into(), json!(o.success())));
-                if !o.success() {
-                    sink.viol("badca.refused-reload-disturbed-old-config".into(), format!("the reload was refused but a client holding a certificate under the still-configured client CA is no longer admitted (client: {:?}, server: {:?}); {c:?}", o.client_err, o.server_err), replay.clone());
-                }
-            }
-            cfg
+        write(&bad, unusable_bundle(&c.kind, &pki.server("trusted-ca", "localhost").key_pem, &pki.ca_client));
+        let Some(cfg) = bad_ca_live_config(pki, &bad, &c.via, &c.ctor, &format!("{c:?}"), &replay, sink, &mut facts, counters).await else {
+            return facts;
         };
         // whatever configuration is live now was built with a client CA configured: clients that present nothing, or a
         // certificate from elsewhere, must not get through
@@ -1030,6 +1136,247 @@ async fn run_bad_ca_case(pki: &Pki, c: &BadCaCase, sink: &Sink<'_>, counters: &C
         facts
     })
     .await
+}
+
+// ---------------------------------------------------------------------------------------
+// The OS trust store as a dimension ("os-trust-store" pass)
+//
+// The process's OS trust store holds exactly one CA per key algorithm, os-ca (`OsStore`). It must be consulted iff
+// NO CA file is configured. A configured file that yields no certificate {empty, private key only, DER instead of
+// PEM, truncated PEM} means "trust nobody" (or an error), never "trust the OS store":
+//  * client side: `--tls-ca <such a file>` without skip-verify must not reach ANY server, in particular not one whose
+//    certificate was issued by os-ca;
+//  * server side: `--tls-client-ca <such a file>`: start-up / reload fails, or every client is rejected, in particular
+//    one whose certificate was issued by os-ca.
+// Also: a usable file of ANOTHER CA does not let os-ca in (client and server side).
+// Controls (not the subject of the property, they make the silence of the cases above meaningful):
+//  * `system`: no CA file, server certificate under os-ca: must be ACCEPTED - this proves that SSL_CERT_FILE really
+//    feeds the subject's built-in roots in this process. If it does not hold the pass is vacuous: MACHINERY error.
+//  * `os-ca-file`: os-ca given as a file (client roots / server client CA): the os-ca leaf certificates are accepted,
+//    i.e. they are refused elsewhere because of who issued them, not because they are unusable.
+// ---------------------------------------------------------------------------------------
+
+/// bundle kinds of this pass (the DER encoding of the very CA that would be right is the strongest temptation)
+const OS_BUNDLE_KINDS: [&str; 4] = ["empty", "key-only", "der", "truncated-pem"];
+
+#[derive(Clone, Debug, PartialEq, Eq, Hash)]
+struct OsTrustCase {
+    alg: String,
+    /// "client" (the client's decision about the server is judged) | "server" (the server's decision about the client)
+    side: String,
+    /// what the CA path points at: one of `OS_BUNDLE_KINDS`; a usable file "trusted-ca" / "other-ca" / "client-ca" / "os-ca";
+    /// or "system" = no CA path at all (client side only)
+    ca_file: String,
+    /// client side: entry point (`CLIENT_VIA`); server side: how the configuration comes into force (`BAD_CA_VIA`)
+    via: String,
+    /// server side: the constructor (start) / "make_tls_identity" (reload); client side: how the plain server is built
+    ctor: String,
+    /// client side: who issued the server's certificate {os-ca, trusted-ca}; server side: always "trusted-ca"
+    server_cert: String,
+    /// the client's certificate; server side: always "os-ca"
+    client_cert: String,
+}
+
+impl OsTrustCase {
+    fn to_json(&self) -> Value {
+        json!({"kind": "os-trust-store", "alg": self.alg, "side": self.side, "ca_file": self.ca_file, "via": self.via, "ctor": self.ctor,
+               "server_cert": self.server_cert, "client_cert": self.client_cert, "skip_verify": false,
+               "os_trust_store": "SSL_CERT_FILE = a bundle holding os-ca only; SSL_CERT_DIR unset"})
+    }
+    fn from_json(v: &Value) -> Self {
+        let s = |k: &str| v[k].as_str().unwrap_or_else(|| panic!("replay: missing {k}")).to_string();
+        Self { alg: s("alg"), side: s("side"), ca_file: s("ca_file"), via: s("via"), ctor: s("ctor"), server_cert: s("server_cert"), client_cert: s("client_cert") }
+    }
+    fn unusable(&self) -> bool {
+        OS_BUNDLE_KINDS.contains(&self.ca_file.as_str())
+    }
+    /// the control that shows that SSL_CERT_FILE feeds the subject's built-in roots
+    fn is_system_control(&self) -> bool {
+        self.side == "client" && self.ca_file == "system" && self.server_cert == "os-ca"
+    }
+}
+
+fn os_trust_domain(algs: &[&str]) -> Vec<OsTrustCase> {
+    let mut v = Vec::new();
+    for alg in algs {
+        let mut client = |ca_file: &str, server_cert: &str, client_cert: &str| {
+            for via in CLIENT_VIA {
+                v.push(OsTrustCase { alg: (*alg).into(), side: "client".into(), ca_file: ca_file.into(), via: via.into(), ctor: "make_server_config".into(), server_cert: server_cert.into(), client_cert: client_cert.into() });
+            }
+        };
+        // controls first: system roots accept os-ca (and nothing else); os-ca as a file accepts os-ca
+        for client_cert in ["none", "client-ca"] {
+            client("system", "os-ca", client_cert);
+        }
+        client("system", "trusted-ca", "none");
+        client("os-ca", "os-ca", "none");
+        // a CA file without certificates
+        for kind in OS_BUNDLE_KINDS {
+            for server_cert in ["os-ca", "trusted-ca"] {
+                for client_cert in ["none", "client-ca"] {
+                    client(kind, server_cert, client_cert);
+                }
+            }
+        }
+        // a usable file of another CA
+        for roots in ["trusted-ca", "other-ca"] {
+            client(roots, "os-ca", "none");
+        }
+        // server side
+        let mut server = |ca_file: &str, via: &str, ctor: &str| v.push(OsTrustCase { alg: (*alg).into(), side: "server".into(), ca_file: ca_file.into(), via: via.into(), ctor: ctor.into(), server_cert: "trusted-ca".into(), client_cert: "os-ca".into() });
+        for ctor in CTORS {
+            server("os-ca", "start", ctor); // control: the os-ca client certificate is admitted under os-ca
+        }
+        for kind in OS_BUNDLE_KINDS {
+            for via in BAD_CA_VIA {
+                for ctor in CTORS {
+                    if via != "start" && ctor != "make_tls_identity" {
+                        continue; // as in `bad_ca_domain`
+                    }
+                    server(kind, via, ctor);
+                }
+            }
+        }
+        for ctor in CTORS {
+            server("client-ca", "start", ctor);
+        }
+    }
+    v
+}
+
+#[derive(Default)]
+struct OsStats {
+    cases: AtomicU64,
+    controls_run: AtomicU64,
+    control_ok: AtomicU64,
+    control_failures: Mutex<Vec<String>>,
+    /// handshakes of this pass that the subject refused / configurations it refused to build, where that was expected
+    expected_refusals: AtomicU64,
+    observed_refusals: AtomicU64,
+    configs_refused: AtomicU64,
+}
+
+/// Returns the facts observed (for determinism comparison in replay).
+async fn run_os_trust_case(pki: &Pki, c: &OsTrustCase, sink: &Sink<'_>, counters: &Counters, stats: &OsStats) -> Result<Facts, String> {
+    let r = catch(async {
+        let mut facts: Facts = Vec::new();
+        let replay = c.to_json();
+        stats.cases.fetch_add(1, Ordering::Relaxed);
+        let bundle = format!("{}/osts-{}-{}-{}-{}-{}-{}.pem", pki.dir_path, c.side, c.ca_file, c.via, c.ctor, c.server_cert, c.client_cert);
+        if c.side == "client" {
+            // ---- the client's CA path
+            let ca_path: Option<String> = if c.unusable() {
+                write(&bundle, unusable_bundle(&c.ca_file, &pki.server("trusted-ca", "localhost").key_pem, &pki.ca_trusted));
+                Some(bundle)
+            } else {
+                pki.roots_path(&c.ca_file).map(str::to_string)
+            };
+            // ---- a server that admits everybody, holding the certificate under test
+            let cfg = match build_server_config(&c.ctor, pki.server(&c.server_cert, "localhost"), None).await {
+                Ok((_, cfg)) => cfg,
+                Err(e) => {
+                    sink.viol(format!("server.config-rejected.{}", c.ctor), format!("{} fails on a well-formed certificate/key: {e}; {c:?}", c.ctor), replay);
+                    return facts;
+                }
+            };
+            let (o, _) = subject_handshake_via(&c.via, cfg, "localhost", pki.client(&c.client_cert), ca_path.as_deref(), false).await;
+            counters.evals.fetch_add(1, Ordering::Relaxed);
+            facts.push(("client.connect_ok".into(), json!(o.client_connect_ok)));
+            facts.push(("success".into(), json!(o.success())));
+            facts.push(("timed_out".into(), json!(o.timed_out)));
+            let ctx = format!("client via {} with {}, skip-verify off, client certificate {}; server certificate issued by {} (localhost, name matches); OS trust store = {{os-ca}}", c.via, match ca_path { Some(_) => format!("--tls-ca = <{}>", c.ca_file), None => "no --tls-ca (system roots)".to_string() }, c.client_cert, c.server_cert);
+            if o.timed_out {
+                sink.viol("matrix.hang".into(), format!("handshake did not finish within 30 s ({ctx})"), replay);
+                return facts;
+            }
+            let defect = if c.unusable() { Some("unusable-ca-bundle") } else { server_cert_defect(&c.server_cert, "localhost", "localhost", &c.ca_file) };
+            if c.is_system_control() {
+                stats.controls_run.fetch_add(1, Ordering::Relaxed);
+                if o.success() {
+                    stats.control_ok.fetch_add(1, Ordering::Relaxed);
+                } else {
+                    stats.control_failures.lock().unwrap().push(format!("{ctx}: client error {:?}, server error {:?}", o.client_err, o.server_err));
+                }
+                return facts; // judged by the driver: MACHINERY when it does not hold
+            }
+            match defect {
+                Some(why) => {
+                    stats.expected_refusals.fetch_add(1, Ordering::Relaxed);
+                    stats.observed_refusals.fetch_add(u64::from(!o.client_connect_ok), Ordering::Relaxed);
+                    if o.client_connect_ok {
+                        let key = if c.unusable() { format!("client.accepts-server.unusable-ca-bundle.{}", c.ca_file) } else { format!("client.accepts-server.{why}.skip-verify-off") };
+                        let what = if c.unusable() {
+                            format!("the CA file it was given holds no certificate ({}), so it was given NO roots, yet it reached the server{}", c.ca_file, if c.server_cert == "os-ca" { " (whose certificate chains to a CA of the OS trust store that the client was never given)" } else { "" })
+                        } else {
+                            format!("the server certificate is unacceptable ({why}): the roots it was given are {} only", if c.ca_file == "system" { "the OS trust store = os-ca" } else { c.ca_file.as_str() })
+                        };
+                        sink.viol(key, format!("the client connected although verification is on and {what}; {ctx}"), replay);
+                    }
+                }
+                None => {
+                    if !o.success() {
+                        sink.viol("client.rejects-server.valid-cert".into(), format!("handshake failed (client: {:?}, server: {:?}) although the server certificate chains to the CA the client was given as a file and matches the name; {ctx}", o.client_err, o.server_err), replay);
+                    }
+                }
+            }
+            return facts;
+        }
+        // ---- server side
+        assert_eq!(c.side, "server", "unknown side");
+        let ctx = format!("server with client-CA file <{}> via {} / {}; client presents a certificate issued by os-ca (the only CA of the OS trust store)", c.ca_file, c.via, c.ctor);
+        let cfg = if c.unusable() {
+            write(&bundle, unusable_bundle(&c.ca_file, &pki.server("trusted-ca", "localhost").key_pem, &pki.ca_client));
+            let live = bad_ca_live_config(pki, &bundle, &c.via, &c.ctor, &format!("{c:?}"), &replay, sink, &mut facts, counters).await;
+            stats.configs_refused.fetch_add(u64::from(facts.iter().any(|(k, v)| k == "start.refused" || (k == "reload.ok" && v == &json!(false)))), Ordering::Relaxed);
+            match live {
+                Some(cfg) => cfg,
+                None => return facts,
+            }
+        } else {
+            let ca = match c.ca_file.as_str() {
+                "os-ca" => &pki.ca_os,
+                "client-ca" => &pki.ca_client,
+                other => panic!("unknown client CA {other}"),
+            };
+            match build_server_config(&c.ctor, pki.server("trusted-ca", "localhost"), Some(&ca.path)).await {
+                Ok((_, cfg)) => cfg,
+                Err(e) => {
+                    sink.viol(format!("server.config-rejected.{}", c.ctor), format!("{} fails on a well-formed certificate/key/CA: {e}; {c:?}", c.ctor), replay);
+                    return facts;
+                }
+            }
+        };
+        let admitted_expected = c.ca_file == "os-ca";
+        for tls13 in [true, false] {
+            let ver = if tls13 { "tls13" } else { "tls12" };
+            let o = probe_handshake(cfg.clone(), tls13, pki.client(&c.client_cert)).await;
+            counters.evals.fetch_add(1, Ordering::Relaxed);
+            let through = o.server_accept_ok || o.echo_ok;
+            facts.push((format!("probe.os-ca.{ver}"), json!(through)));
+            if admitted_expected {
+                if !o.success() {
+                    sink.viol("server.rejects-client.os-ca.client-ca-os-ca".into(), format!("handshake/echo failed ({ver}; client: {:?}, server: {:?}) although the client's certificate was issued by the configured client CA; {ctx}", o.client_err, o.server_err), replay.clone());
+                }
+                continue;
+            }
+            stats.expected_refusals.fetch_add(1, Ordering::Relaxed);
+            stats.observed_refusals.fetch_add(u64::from(!through), Ordering::Relaxed);
+            if through {
+                let (key, what) = if c.unusable() {
+                    (format!("server.accepts-client.unusable-client-ca.os-trusted.{}", c.ca_file), format!("the client-CA file holds no certificate ({}), so no client can be authenticated", c.ca_file))
+                } else {
+                    ("server.accepts-client.client-cert-os-trusted-ca".to_string(), "the client's certificate was not issued by the configured client CA".to_string())
+                };
+                sink.viol(key, format!("the server completed the handshake ({ver}, accept ok={}, echo ok={}) although {what}; {ctx}", o.server_accept_ok, o.echo_ok), replay.clone());
+            }
+        }
+        facts
+    })
+    .await;
+    if let Err(p) = &r {
+        sink.viol("ostrust.panic".into(), format!("panic in os-trust-store case {c:?}: {p}"), c.to_json());
+    }
+    r
 }
 
 // ---------------------------------------------------------------------------------------
@@ -2364,9 +2711,9 @@ fn quiet_panics() {
     std::panic::set_hook(Box::new(|_| {}));
 }
 
-fn replay(args: &Args, v: &Value, mut rep: Report) -> Report {
+fn replay(args: &Args, v: &Value, mut rep: Report, os_store: &OsStore) -> Report {
     let alg = v["alg"].as_str().expect("replay: alg").to_string();
-    let pki = Pki::new(&alg);
+    let pki = Pki::new(&alg, os_store);
     let rep_m = Mutex::new(Report::new("C17", &args.tier, "enum", "exploration"));
     let sink = Sink { rep: &rep_m };
     let rt = runtime();
@@ -2374,8 +2721,16 @@ fn replay(args: &Args, v: &Value, mut rep: Report) -> Report {
     let mut observations = Vec::new();
     let mut machinery: Option<String> = None;
     let ret_stats = RetStats::default();
+    let os_stats = OsStats::default();
     for _ in 0..2 {
         let o = match v["kind"].as_str() {
+            Some("os-trust-store") => {
+                let c = OsTrustCase::from_json(v);
+                match rt.block_on(run_os_trust_case(&pki, &c, &sink, &counters, &os_stats)) {
+                    Ok(f) => json!({"verdict": f}),
+                    Err(p) => json!({"verdict": {"panicked": p}}),
+                }
+            }
             Some("signal-reload") => {
                 let c = SigCase::from_json(v);
                 match exec_sig_case(&pki, &c, &sink, &counters) {
@@ -2456,6 +2811,13 @@ fn replay(args: &Args, v: &Value, mut rep: Report) -> Report {
     if let Some(m) = machinery {
         rep.machinery_error = Some(m);
     }
+    if let Some(f) = os_stats.control_failures.lock().unwrap().first() {
+        rep.machinery_error = Some(format!("os-trust-store: the control does not hold: with NO CA file configured a server certificate issued by the CA in SSL_CERT_FILE ({}) must be accepted, but: {f}", os_store.path));
+    }
+    if v["kind"].as_str() == Some("os-trust-store") {
+        rep.extra.insert("os_trust_store_cases".into(), json!(os_stats.cases.load(Ordering::Relaxed) / 2));
+        rep.extra.insert("os_trust_store_control_ok".into(), json!(os_stats.control_ok.load(Ordering::Relaxed) / 2));
+    }
     rep.distinct_nontrivial = 1;
     rep.rule = "replay of one recorded configuration, executed twice with fresh key material; observations must agree".into();
     if v["kind"].as_str() == Some("returning-client") {
@@ -2470,6 +2832,14 @@ fn replay(args: &Args, v: &Value, mut rep: Report) -> Report {
 pub fn run(args: &Args) -> Report {
     let mut rep = Report::new("C17", &args.tier, "enum", "exploration");
     quiet_panics();
+    // The OS trust store of this process: before anything else (no TLS configuration exists yet, no worker thread runs).
+    let os_store = match OsStore::install() {
+        Ok(s) => s,
+        Err(e) => {
+            rep.machinery_error = Some(e);
+            return rep;
+        }
+    };
     // Never let a stray SSLKEYLOGFILE make the subject write key logs.
     // (the variable is only read by rustls::KeyLogFile; nothing else depends on it)
     if tls::init_crypto_provider().is_none() && CryptoProvider::get_default().is_none() {
@@ -2477,14 +2847,14 @@ pub fn run(args: &Args) -> Report {
         return rep;
     }
     if let Some(v) = args.replay_json() {
-        return replay(args, &v, rep);
+        return replay(args, &v, rep, &os_store);
     }
     let thorough = args.thorough();
     let algs: Vec<&str> = if thorough { ALGS.to_vec() } else { vec!["p256"] };
-    rep.rule = "complete product: key algorithm x server certificate {trusted-CA leaf, other-CA leaf, self-signed, expired trusted-CA leaf} x (certificate name, requested name) x skip-verify x roots given to the client {trusted CA, other CA, none/system} x client certificate {none, client-CA, other-CA, self-signed} x server client-CA {none, set} x server-config constructor; plus harness-client probes (TLS1.2/1.3) of every server configuration, all reload histories A->B (identities, client-CA before/after, reload method), a client-CA file without a usable certificate {empty, key only, not PEM, truncated PEM} at start-up (every constructor) and at reload (every method): refusing is fine, admitting a client without a certificate under a CA is not, and the real client main loop over loopback TCP for every (--hostname, --tls-server-name, certificate name, skip-verify) combination; reload histories through SIGUSR1 on a running server_main (loopback TCP, one after the other): starting from identity A, each step rewrites the live --tls-cert/--tls-key files as one of {good-B, good-A, bad-key = key file truncated, bad-cert = certificate file not PEM} and raises SIGUSR1, then a harness client that accepts any certificate opens a new connection: it must be shown the last well-formed identity written so far (a new identity within 3 s; an unchanged one is looked at once after 300 ms), the connection made before the first signal must still get an HTTP response at the end, and a TLS handshake that only STARTS at the end, on a TCP connection accepted before the first signal and silent since, must be shown the identity then in force; quick tier: every history of length 1..=2 and, of length 3, those whose first step is bad-key/bad-cert and whose last step is good-A/good-B, plus [good-B, bad-key, good-A]; thorough tier: every history of length 1..=4, and every history of length 1..=2 again with a client CA configured and for every further key algorithm; returning-client histories: ONE rustls ClientConfig (session store kept: tickets / session ids) per history, client in {harness TLS1.3, harness TLS1.2 (both record the certificate presented), the subject's make_client_config}, (client certificate, client CA at start) in {(none, none), (under ca1, none), (under ca1, ca1)}, first visit to identity A (full handshake, round trip, clean close), then every sequence of steps over {again = connect again without reload, X/ca = reload to identity X in {A,B} with client CA ca in {none, ca1, ca2} and connect again} of length 1..=2 (thorough: 1..=3 for the first key algorithm) for each of the three library reload methods (server side accepts like server_main: LazyConfigAcceptor, identity taken after the ClientHello), and through SIGUSR1 on a running server_main (client-CA file rewritten; steps {again, A, B} without client CA, {again, A/ca1, B/ca1, A/ca2, B/ca2} with one; quick: harness TLS1.3 client, length 1; thorough: length 1..=2, other clients length 1; a fresh non-resuming client must observe the new state within 3 s before the returning one is judged): every connection must carry the certificate of the identity in force (peer_certificates of that connection) and is served iff no client CA is in force or the client's certificate is issued by the one in force; control: a second visit without any reload must be a resumption, else MACHINERY; a case is distinct when its configuration tuple is distinct".into();
+    rep.rule = "complete product: key algorithm x server certificate {trusted-CA leaf, other-CA leaf, self-signed, expired trusted-CA leaf} x (certificate name, requested name) x skip-verify x roots given to the client {trusted CA, other CA, none/system} x client certificate {none, client-CA, other-CA, self-signed} x server client-CA {none, set} x server-config constructor; plus harness-client probes (TLS1.2/1.3) of every server configuration, all reload histories A->B (identities, client-CA before/after, reload method), a client-CA file without a usable certificate {empty, key only, not PEM, truncated PEM} at start-up (every constructor) and at reload (every method): refusing is fine, admitting a client without a certificate under a CA is not; the OS trust store of the process is SSL_CERT_FILE = {os-ca} and the os-trust-store pass is the complete product, client side (tls_connect and make_client_config, skip-verify off, name matches): CA file {empty, key only, the trusted CA in DER, truncated PEM} x server certificate issued by {os-ca, trusted CA} x client certificate {none, under client CA} must NOT connect, a usable file of {trusted CA, other CA} must not reach a server certificate under os-ca, no CA file must not reach one under the trusted CA, controls: no CA file reaches a server certificate under os-ca (must hold, else MACHINERY) and os-ca given as a file does too; server side (harness client presenting a certificate issued by os-ca, TLS 1.2 and 1.3): client-CA file {empty, key only, the client CA in DER, truncated PEM} at start-up (every constructor) and at reload (every method): refused, or the os-ca client is rejected (after a refused reload the old configuration rejects it too), a usable client-CA file of another CA rejects it, control: os-ca as the client-CA file admits it; and the real client main loop over loopback TCP for every (--hostname, --tls-server-name, certificate name, skip-verify) combination; reload histories through SIGUSR1 on a running server_main (loopback TCP, one after the other): starting from identity A, each step rewrites the live --tls-cert/--tls-key files as one of {good-B, good-A, bad-key = key file truncated, bad-cert = certificate file not PEM} and raises SIGUSR1, then a harness client that accepts any certificate opens a new connection: it must be shown the last well-formed identity written so far (a new identity within 3 s; an unchanged one is looked at once after 300 ms), the connection made before the first signal must still get an HTTP response at the end, and a TLS handshake that only STARTS at the end, on a TCP connection accepted before the first signal and silent since, must be shown the identity then in force; quick tier: every history of length 1..=2 and, of length 3, those whose first step is bad-key/bad-cert and whose last step is good-A/good-B, plus [good-B, bad-key, good-A]; thorough tier: every history of length 1..=4, and every history of length 1..=2 again with a client CA configured and for every further key algorithm; returning-client histories: ONE rustls ClientConfig (session store kept: tickets / session ids) per history, client in {harness TLS1.3, harness TLS1.2 (both record the certificate presented), the subject's make_client_config}, (client certificate, client CA at start) in {(none, none), (under ca1, none), (under ca1, ca1)}, first visit to identity A (full handshake, round trip, clean close), then every sequence of steps over {again = connect again without reload, X/ca = reload to identity X in {A,B} with client CA ca in {none, ca1, ca2} and connect again} of length 1..=2 (thorough: 1..=3 for the first key algorithm) for each of the three library reload methods (server side accepts like server_main: LazyConfigAcceptor, identity taken after the ClientHello), and through SIGUSR1 on a running server_main (client-CA file rewritten; steps {again, A, B} without client CA, {again, A/ca1, B/ca1, A/ca2, B/ca2} with one; quick: harness TLS1.3 client, length 1; thorough: length 1..=2, other clients length 1; a fresh non-resuming client must observe the new state within 3 s before the returning one is judged): every connection must carry the certificate of the identity in force (peer_certificates of that connection) and is served iff no client CA is in force or the client's certificate is issued by the one in force; control: a second visit without any reload must be a resumption, else MACHINERY; a case is distinct when its configuration tuple is distinct".into();
 
     let t0 = std::time::Instant::now();
-    let pkis: Vec<(String, Pki)> = algs.iter().map(|a| ((*a).to_string(), Pki::new(a))).collect();
+    let pkis: Vec<(String, Pki)> = algs.iter().map(|a| ((*a).to_string(), Pki::new(a, &os_store))).collect();
     let pki_of = |alg: &str| &pkis.iter().find(|(a, _)| a == alg).expect("pki").1;
     let keygen_s = t0.elapsed().as_secs_f64();
 
@@ -2493,6 +2863,8 @@ pub fn run(args: &Args) -> Report {
     let reloads = reload_domain(&algs);
     let names = name_domain(&algs);
     let badcas = bad_ca_domain(&algs);
+    let ostrust = os_trust_domain(&algs);
+    let os_stats = OsStats::default();
     let sigs = sig_domain(&algs, thorough);
     let rets = ret_domain(&algs, thorough);
     // the SIGUSR1 ones run one after the other inside the signal-reload job, the others are jobs of their own
@@ -2505,7 +2877,7 @@ pub fn run(args: &Args) -> Report {
     let sig_machinery: Mutex<Option<String>> = Mutex::new(None);
     let sig_wall: Mutex<f64> = Mutex::new(0.0);
     let ret_sig_wall: Mutex<f64> = Mutex::new(0.0);
-    let distinct = rets.iter().collect::<HashSet<_>>().len() + sigs.iter().collect::<HashSet<_>>().len() + badcas.len() + matrix.iter().collect::<HashSet<_>>().len() + probes.iter().collect::<HashSet<_>>().len() + reloads.iter().collect::<HashSet<_>>().len() + names.iter().collect::<HashSet<_>>().len();
+    let distinct = rets.iter().collect::<HashSet<_>>().len() + sigs.iter().collect::<HashSet<_>>().len() + badcas.len() + ostrust.iter().collect::<HashSet<_>>().len() + matrix.iter().collect::<HashSet<_>>().len() + probes.iter().collect::<HashSet<_>>().len() + reloads.iter().collect::<HashSet<_>>().len() + names.iter().collect::<HashSet<_>>().len();
     let n_name_ok = AtomicU64::new(0);
     let n_name_refused = AtomicU64::new(0);
     let n_badca_refused_start = AtomicU64::new(0);
@@ -2527,6 +2899,8 @@ pub fn run(args: &Args) -> Report {
         R(usize),
         N(usize),
         B(usize),
+        /// one os-trust-store case
+        O(usize),
         /// one returning-client history (library mechanisms)
         Q(usize),
         /// all signal-reload histories, one after the other (SIGUSR1 is process-wide)
@@ -2540,6 +2914,7 @@ pub fn run(args: &Args) -> Report {
     jobs.extend((0..reloads.len()).map(Job::R));
     jobs.extend((0..names.len()).map(Job::N));
     jobs.extend((0..badcas.len()).map(Job::B));
+    jobs.extend((0..ostrust.len()).map(Job::O));
     jobs.extend(ret_lib.iter().copied().map(Job::Q));
     let next = AtomicU64::new(0);
 
@@ -2614,6 +2989,17 @@ pub fn run(args: &Args) -> Report {
                                     }
                                 }
                                 Err(p) => sink.viol("badca.panic".into(), format!("panic with an unusable client CA {c:?}: {p}"), c.to_json()),
+                            }
+                        }
+                        Job::O(k) => {
+                            let c = &ostrust[k];
+                            if let Ok(f) = rt.block_on(run_os_trust_case(pki_of(&c.alg), c, &sink, &counters, &os_stats)) {
+                                // samples: the control, one client-side and one server-side case with the DER bundle
+                                let pick = c.alg == algs[0]
+                                    && matches!((c.side.as_str(), c.ca_file.as_str(), c.via.as_str(), c.server_cert.as_str(), c.client_cert.as_str()), ("client", "system", "tls_connect", "os-ca", "none") | ("client", "der", "tls_connect", "os-ca", "none") | ("server", "der", "reload.other-paths", _, _));
+                                if pick {
+                                    samples.lock().unwrap().push(json!({"case": c.to_json(), "observed": f}));
+                                }
                             }
                         }
                         Job::Q(k) => {
@@ -2694,6 +3080,12 @@ pub fn run(args: &Args) -> Report {
     rep.bounds.insert("client_name_selection_cases".into(), json!(names.len()));
     rep.bounds.insert("unusable_client_ca_cases".into(), json!(badcas.len()));
     rep.bounds.insert("unusable_client_ca_files".into(), json!(BAD_CA_KINDS));
+    rep.bounds.insert("os_trust_store_cases".into(), json!(ostrust.len()));
+    rep.bounds.insert("os_trust_store_cases_client_side".into(), json!(ostrust.iter().filter(|c| c.side == "client").count()));
+    rep.bounds.insert("os_trust_store_cases_server_side".into(), json!(ostrust.iter().filter(|c| c.side == "server").count()));
+    rep.bounds.insert("os_trust_store_unusable_bundles".into(), json!(OS_BUNDLE_KINDS));
+    rep.bounds.insert("os_trust_store_client_entry_points".into(), json!(CLIENT_VIA));
+    rep.bounds.insert("os_trust_store".into(), json!("SSL_CERT_FILE = bundle holding only os-ca (one per key algorithm), SSL_CERT_DIR unset; set before any TLS configuration is built"));
     rep.bounds.insert("signal_reload_histories".into(), json!(sigs.len()));
     rep.bounds.insert("signal_reload_alphabet".into(), json!(SIG_ALPHABET));
     rep.bounds.insert("signal_reload_history_length".into(), json!(if thorough { "1..=4 (all); 1..=2 with client CA and per further key algorithm" } else { "1..=2 (all); 3 (first step bad-key/bad-cert and last step good-A/good-B, plus [good-B, bad-key, good-A])" }));
@@ -2721,6 +3113,14 @@ pub fn run(args: &Args) -> Report {
     rep.extra.insert("signal_reload_histories_run".into(), json!(n_sig_done.load(Ordering::Relaxed)));
     rep.extra.insert("signal_reload_steps_expecting_no_change".into(), json!(n_sig_steps_unchanged.load(Ordering::Relaxed)));
     rep.extra.insert("signal_reload_wall_s".into(), json!(*sig_wall.lock().unwrap()));
+    let n_os_controls = ostrust.iter().filter(|c| c.is_system_control()).count() as u64;
+    rep.extra.insert("os_trust_store_cases".into(), json!(os_stats.cases.load(Ordering::Relaxed)));
+    rep.extra.insert("os_trust_store_controls".into(), json!(n_os_controls));
+    rep.extra.insert("os_trust_store_control_ok".into(), json!(os_stats.control_ok.load(Ordering::Relaxed)));
+    rep.extra.insert("os_trust_store_expected_refusals".into(), json!(os_stats.expected_refusals.load(Ordering::Relaxed)));
+    rep.extra.insert("os_trust_store_observed_refusals".into(), json!(os_stats.observed_refusals.load(Ordering::Relaxed)));
+    rep.extra.insert("os_trust_store_configurations_refused".into(), json!(os_stats.configs_refused.load(Ordering::Relaxed)));
+    rep.extra.insert("os_trust_store_file".into(), json!("SSL_CERT_FILE -> <tempdir>/os-trust-store.pem"));
     rep.extra.insert("unusable_client_ca_refused_at_start".into(), json!(n_badca_refused_start.load(Ordering::Relaxed)));
     rep.extra.insert("client_name_expected_accept".into(), json!(n_name_ok.load(Ordering::Relaxed)));
     rep.extra.insert("client_name_expected_refuse".into(), json!(n_name_refused.load(Ordering::Relaxed)));
@@ -2745,7 +3145,7 @@ pub fn run(args: &Args) -> Report {
     for s in firsts.into_iter().chain(rest) {
         rep.sample(s);
     }
-    rep.assumptions.push("the system trust store does not contain the CAs generated for this run (roots = \"system\" means no --tls-ca)".into());
+    rep.assumptions.push("the system trust store of the process is what SSL_CERT_FILE names (rustls-native-certs reads the variable on every load and then ignores the machine's own store): a bundle holding only os-ca, which issued nothing but the certificates of the os-trust-store pass; roots = \"system\" means no --tls-ca. That the variable really feeds the subject's built-in roots is checked by the control cases (os_trust_store_control_ok must equal os_trust_store_controls, else MACHINERY). A subject built with other built-in roots as well (webpki-roots, dn42-roots features) would still pass the control; those roots issued none of the certificates used here".into());
     rep.assumptions.push("transport is an in-memory duplex pipe (loopback TCP in the client-name and signal-reload passes); TCP-level effects (resets, partial writes) are out of scope of this property".into());
     rep.assumptions.push("signal-reload pass: SIGUSR1 is raised by the process on itself (raise) only after the server accepted a TLS connection, i.e. after its handler task exists; the reload is given 3 s to become visible".into());
     rep.assumptions.push("returning-client pass: the client is rustls with its in-memory session store (tickets and session ids), one ClientConfig per history; whether a handshake was resumed is what rustls reports (handshake_kind) on either side; a resumption across a reload is not an alarm by itself (reloading the same identity may resume), only its effects are judged".into());
@@ -2766,6 +3166,17 @@ pub fn run(args: &Args) -> Report {
     }
     if rep.evaluations < (matrix.len() + probes.len() + reloads.len() + names.len()) as u64 {
         rep.machinery_error = Some("not every case was executed".into());
+    }
+    // os-trust-store pass: every case executed and every control holds; otherwise its silence means nothing
+    let os_control_failures = os_stats.control_failures.lock().unwrap().clone();
+    if let Some(f) = os_control_failures.first() {
+        rep.machinery_error = Some(format!(
+            "os-trust-store: {} of {n_os_controls} controls do not hold: with NO CA file configured a server certificate issued by the CA in SSL_CERT_FILE ({}) must be accepted (otherwise the variable does not feed the subject's built-in roots on this machine and the cases with a CA file without certificates say nothing); first: {f}",
+            os_control_failures.len(),
+            os_store.path
+        ));
+    } else if rep.violations.is_empty() && (os_stats.cases.load(Ordering::Relaxed) != ostrust.len() as u64 || os_stats.control_ok.load(Ordering::Relaxed) != n_os_controls || n_os_controls == 0) {
+        rep.machinery_error = Some(format!("os-trust-store: {} of {} cases were executed, {} of {n_os_controls} controls hold", os_stats.cases.load(Ordering::Relaxed), ostrust.len(), os_stats.control_ok.load(Ordering::Relaxed)));
     }
     // returning-client pass: every history executed, and the controls show that this set-up resumes at all
     let control_failures = ret_stats.control_failures.lock().unwrap().clone();
